@@ -167,12 +167,18 @@ AtOpt(x, p) == IF p = <<>> THEN x
                     ELSE IF x.t = "obj" /\ h.t = "k" THEN (IF HasKey(x, h.v) THEN AtOpt(Member(x, h.v), Tail(p)) ELSE Absent)
                     ELSE Absent
 
-\* ignore path g would cover L if its index component j were L's: the ignore of a sibling element
-SibAt(g, L, j) == /\ Len(g) <= Len(L) /\ g[j].t = "i" /\ L[j].t = "i" /\ g[j].v # L[j].v
-                  /\ \A i \in (1..Len(g)) \ {j} : CompMatch(g[i], L[i])
+\* ignore path g would cover L if some of its index components were L's: the ignore of a sibling element.
+\* DiffPos = the positions where g does not match L; the relation only counts when all of them are index-vs-index.
+DiffPos(g, L) == {i \in 1..Len(g) : ~CompMatch(g[i], L[i])}
+SibOf(g, L) == /\ Len(g) > 0 /\ Len(g) <= Len(L) /\ DiffPos(g, L) # {}
+               /\ \A i \in DiffPos(g, L) : g[i].t = "i" /\ L[i].t = "i"
+SibInner(g, L) == SibOf(g, L) /\ Len(g) \notin DiffPos(g, L)                       \* only inner indexes differ
+SibLast(g, L)  == SibOf(g, L) /\ DiffPos(g, L) = {Len(g)}                          \* only the last index differs
+SibBoth(g, L)  == SibOf(g, L) /\ Len(g) \in DiffPos(g, L) /\ DiffPos(g, L) # {Len(g)}
 IgnRel(L, igs) == IF igs = {} THEN "no-ignore"
-                  ELSE IF \E g \in igs : \E j \in 1..(Len(g) - 1) : SibAt(g, L, j) THEN "sibling-inner-ignore"
-                  ELSE IF \E g \in igs : Len(g) > 0 /\ SibAt(g, L, Len(g)) THEN "sibling-last-ignore"
+                  ELSE IF \E g \in igs : SibInner(g, L) THEN "sibling-inner-ignore"
+                  ELSE IF \E g \in igs : SibBoth(g, L) THEN "sibling-inner+last-ignore"
+                  ELSE IF \E g \in igs : SibLast(g, L) THEN "sibling-last-ignore"
                   ELSE "other-ignore"
 MissLoc(T, x, y, igs) ==
    LET u == AtOpt(x, T.p)
